@@ -3,7 +3,8 @@
 //! Err => ALL metadata of the receiver unchanged (the trait's documented contract: "metadata
 //! fields are updated atomically after a successful read"); Ok => dimensions consistent with
 //! the buffer; never a panic.
-use poulpy_core::layouts::{Base2K, Degree, GLWECompressed, GLWEInfos, LWEInfos, Rank, TorusPrecision, GLWE, LWE};
+use poulpy_core::layouts::compressed::{GGLWECompressed, GGLWECompressedSeed, GGSWCompressed, GGSWCompressedSeed};
+use poulpy_core::layouts::{Base2K, Degree, Dnum, Dsize, GGLWEInfos, GGSWInfos, GLWECompressed, GLWEInfos, LWEInfos, Rank, TorusPrecision, GLWE, LWE};
 use poulpy_hal::layouts::{ReaderFrom, ZnxInfos};
 
 fn exact(dims: &[usize]) -> u128 {
@@ -15,6 +16,7 @@ fn exact(dims: &[usize]) -> u128 {
 }
 
 /// WHICH: 0 GLWE (n=2, rank 1, 2 limbs) 1 LWE (n=2, 2 limbs) 2 GLWECompressed (n=2, rank 1, 2 limbs)
+/// 3 GGSWCompressed / 4 GGLWECompressed (n=2, rank 1, one row, 2 limbs; header truncations only)
 pub fn wrapper_read<const WHICH: usize, const SLEN: usize>() {
     let stream = vsym::arr_u8::<SLEN>();
     let mut rd: &[u8] = &stream[..];
@@ -41,6 +43,26 @@ pub fn wrapper_read<const WHICH: usize, const SLEN: usize>() {
                 assert!(g.base2k() == b0 && g.data().n() == n0 && g.data().size() == s0, "LWE::read_from failed but changed the receiver's metadata");
             } else {
                 assert!(exact(&[g.data().n(), g.data().cols(), g.data().max_size()]) <= len as u128, "LWE::read_from Ok with dimensions exceeding the buffer");
+            }
+        }
+        3 => {
+            let mut g = GGSWCompressed::alloc(Degree(2), Base2K(17), TorusPrecision(34), Rank(1), Dnum(1), Dsize(1));
+            let (b0, d0, r0, sl0, s0) = (g.base2k(), g.dsize(), g.rank(), g.seed().len(), g.size());
+            let r = g.read_from(&mut rd);
+            let ok = r.is_ok();
+            core::mem::forget(r);
+            if !ok {
+                assert!(g.base2k() == b0 && g.dsize() == d0 && g.rank() == r0 && g.seed().len() == sl0 && g.size() == s0, "GGSWCompressed::read_from failed but changed the receiver's metadata");
+            }
+        }
+        4 => {
+            let mut g = GGLWECompressed::alloc(Degree(2), Base2K(17), TorusPrecision(34), Rank(1), Rank(1), Dnum(1), Dsize(1));
+            let (b0, d0, r0, sl0, s0) = (g.base2k(), g.dsize(), g.rank_out(), g.seed().len(), g.size());
+            let r = g.read_from(&mut rd);
+            let ok = r.is_ok();
+            core::mem::forget(r);
+            if !ok {
+                assert!(g.base2k() == b0 && g.dsize() == d0 && g.rank_out() == r0 && g.seed().len() == sl0 && g.size() == s0, "GGLWECompressed::read_from failed but changed the receiver's metadata");
             }
         }
         _ => {
